@@ -61,4 +61,8 @@ VARIANTS = [
         dict(file='vermouth/graph_utils.py', old="def collect_residues(graph, attrs=('chain', 'resid', 'resname', 'insertion_code')):", new="def collect_residues(graph, attrs=('chain', 'resid', 'resname')):")]),
     dict(name='benign helper get_attrs through a list', expect='silent', edits=[
         dict(file='vermouth/graph_utils.py', old="    return tuple(node.get(attr) for attr in attrs)", new="    values = [node.get(attr) for attr in attrs]\n    return tuple(values)")]),
+    dict(name='benign bonds-from flags through sets', expect='silent', edits=[
+        dict(file='bin/martinize2', old='    bonds_from_name = args.bonds_from in ("name", "both")\n    bonds_from_dist = args.bonds_from in ("distance", "both")', new='    bonds_from_name = args.bonds_from in {"name", "both"}\n    bonds_from_dist = args.bonds_from in {"distance", "both"}')]),
+    dict(name='bonds-from flags crossed on the way to MakeBonds', expect='fire', key='KW-wiring|bonds-from|passed', edits=[
+        dict(file='bin/martinize2', old='        allow_name=bonds_from_name, allow_dist=bonds_from_dist, fudge=bonds_fudge', new='        allow_name=bonds_from_dist, allow_dist=bonds_from_name, fudge=bonds_fudge')]),
 ]
